@@ -572,6 +572,16 @@ func (e *Engine) binop(st *State, fr *Frame, x *ssa.BinOp) AVal {
 	case token.EQL, token.NEQ, token.LSS, token.LEQ, token.GTR, token.GEQ:
 		isCmp = true
 	}
+	// function values against nil (`if parse != nil { parse(s) }`): both sides are known functions
+	if fa, ok := a.(FuncV); ok && (x.Op == token.EQL || x.Op == token.NEQ) {
+		if fb, ok := b.(FuncV); ok && (fa.Fn == nil || fb.Fn == nil) {
+			eq := fa.Fn == fb.Fn
+			if eq == (x.Op == token.EQL) {
+				return BoolV{Known: 1}
+			}
+			return BoolV{Known: 2}
+		}
+	}
 	// constant on the left: swap for byte tests
 	if _, okc := constOf(a); okc {
 		if bb, ok := b.(ByteV); ok && bb.Root >= 0 && isCmp {
